@@ -630,6 +630,11 @@ class Gen:
         if x < 0.2:
             return Redir("<", lit(r.pick(["in.txt", "/dev/null"])))
         if x < 0.27:
+            if depth < self.max_depth and r.chance(0.4):
+                # an fd-duplication target is a word like any other: bash expands the substitution in it
+                sub = Seg("cmdsub", prog=self.prog(depth + 1, small=True))
+                t = W([Seg("lit", "&"), sub]) if r.chance(0.7) else W([Seg("lit", "&"), Seg("param", name="nofd", op=":-", segs=[sub])])
+                return Redir(r.pick(["2>", "1>", "0<", ">", "<", "3>"]), t)
             return Redir("2>", lit("&1"))
         if x < 0.32:
             return Redir("<<<", self.word(depth))
